@@ -15,7 +15,7 @@ META = {
                    "(K-guard, G-count; push safety is C02's P-push); (K-fit) the static maximum bit length of every list-bearing message with all loops "
                    "at their capacity is <= 8172; (E-prop) every fallible call in the decode closure is propagated with ?, returned or matched, so a "
                    "short body (BufferOverflow) or an over-capacity count reaches from_message_frame's Corrupt mapping (E-map)."
-                   "(B-sem) the bit-exact reading of put / parse these clauses stand on (field bits MSB first at the cursor, nothing else touched) is the abstract interpretation of C07, imported and decided here too.",
+                   "(B-sem) the bit-exact reading of put / parse these clauses stand on (field bits MSB first at the cursor, nothing else touched) is the abstract interpretation of C07, imported and decided here too. Completeness and integrity: the decoded list is mutated only by the loop's push (no pop / truncate / reorder afterwards), encoders propagate every element error (E-prop on the encode closure), and message 1029's count-prefixed text is covered through X-lim / X-utf8 (counts, limits, 'no byte is skipped', 'the text is exactly the counted bytes').",
     "assumptions": ["MSM and code-bias structures are covered by C10 / C16"],
 }
 
